@@ -15,11 +15,12 @@ RULE = ("(a) scripted-loop model checking: the real Solver.solve loop on a toy p
 ASSUMPTIONS = ["the toy pool has 9 points; only their classification matters to the loop",
                "real-run part: horizon 80 iterations; identity of Iterate objects is used to decide whether the iterate changed"]
 CASE_ALARM_S = 300
+TIMEOUT_IS_VIOLATION = "a solve with an iteration limit did not return"
 FILTERS = ("ObjectiveFilter", "LagrangianFilter")
 
 
 def run_table(tier, seed):
-    specs = G.core_specs() + G.adversarial_specs()[:6]
+    specs = G.core_specs() + G.adversarial_specs()[:6] + G.outside_start_specs()[2:]
     cfgs = G.configs_star() if tier == "quick" else G.configs_pairs()
     out = []
     for si, spec in enumerate(specs):
